@@ -109,6 +109,29 @@ def structure_obligations():
                 a, b = getattr(obj, pname_), getattr(obj, d[1])
                 if getattr(a, "_slot_index", 0) != getattr(b, "_slot_index", 1):
                     rows.append(dict(kind="named_slot", cls=cname, prop=pname_, target=d[1]))
+    # (4) slot classes: every slot-logic property carries the LogicSlotType member of its own name
+    from stationeers_pytrapic.types_generated import LogicSlotType, LogicType
+
+    for cname, info in classes.items():
+        if not cname.startswith("_SlotType"):
+            continue
+        cls = getattr(sg, cname, None)
+        if cls is None:
+            continue
+        for pname_, d in info["props"].items():
+            if d[0] != "slotlogic":
+                continue
+            n += 1
+            try:
+                owner = sg.Furnace("d0") if not cname.endswith("s") or cname in ("_SlotTypeGasCanister",) else None
+                obj = cls(owner if owner is not None else getattr(sg, "Furnaces"), 0)
+                val = getattr(obj, pname_)
+                st = getattr(val, "_slot_type", None)
+            except Exception as e:
+                rows.append(dict(kind="slot_property_raises", cls=cname, prop=pname_, detail=str(e)))
+                continue
+            if not isinstance(st, LogicSlotType) or st.name != pname_:
+                rows.append(dict(kind="slot_logic_type", cls=cname, prop=pname_, got=f"{type(st).__name__}.{getattr(st, 'name', st)}"))
     return n, rows
 
 
